@@ -6,7 +6,7 @@ generators (`mode`).
 """
 import copy
 
-from sim import gen, interp, match, netview, refmodel, seams, spiceview
+from sim import advnames, gen, interp, match, netview, plant, refmodel, seams, spiceview
 from sim.choices import Choices, hash64
 from sim.procs import template_init
 
@@ -27,9 +27,21 @@ def prim_ports():
 
 def generate(seed, mode="c01", base_cfg=None):
     ch = Choices(seed)
+    if mode == "c04":
+        base_cfg = dict(base_cfg or {})
+        base_cfg.update({"history": True, "portrefs": True, "noconn": True})
     cfg = gen.draw_cfg(ch, base_cfg)
     ops, mids, g = gen.gen_design(ch, cfg)
     top = mids[-1]
+    adv = 0
+    planted = None
+    if mode == "c02":
+        r = plant.plant(ch, ops, top)
+        if r is not None:
+            ops, cls, site = r
+            planted = [cls, site]
+    if mode == "c05":
+        ops, adv = advnames.adversarial(ch, ops)
     # history prefix: sub-modules elaborated / exported earlier (dimension H)
     if ch.chance(1, 2):
         out = []
@@ -46,6 +58,8 @@ def generate(seed, mode="c01", base_cfg=None):
         "top": top,
         "sched": [ch.pick(seams.POLICIES, "policy"), ch.draw(1 << 30, "schedseed")],
         "junk": ch.rint(0, 3, "junk") * 97,
+        "adv": adv,
+        "planted": planted,
     }
     return scn
 
@@ -95,6 +109,10 @@ def execute(scn):
         res["discard"] = f"model: {e}"
         return res
     expect_bad = scn["mode"] == "c02"
+    if expect_bad and scn.get("planted") is None:
+        res["discard"] = "no site for the drawn fault class"
+        probe("c02_no_site")
+        return res
     if bad and not expect_bad:
         res["discard"] = f"generated program ill-formed: {bad}"
         return res
@@ -110,12 +128,22 @@ def execute(scn):
         it.op_junk(scn["junk"])
     build_exc = None
     hist_calls = 0
+    stepd = refmodel.Design() if scn["mode"] == "c04" else None
     for op in ops:
         try:
             r = it.run(op)
         except Exception as e:  # noqa
             build_exc = interp.norm_exc(e)
             break
+        if stepd is not None and op[0] in refmodel.DESIGN_OPS:
+            stepd.apply(op)
+            if op[0] in ("conn", "repl", "disc"):
+                bad_step = _live_invariant(it, stepd, op)
+                if bad_step:
+                    res["findings"].append({"prop": "C04", "clause": "live-conns", "detail": [bad_step]})
+                    stepd = None
+                else:
+                    probe("live_invariant_checks")
         if op[0] in interp.EXPORT_OPS:
             hist_calls += 1
             if not r["ok"] and not expect_bad:
@@ -143,6 +171,9 @@ def execute(scn):
     pkg = r["pkg"]
     model = refmodel.flatten(design, top, locs)
     _feature_probes(ops, probe)
+    if scn.get("adv"):
+        probe("adversarial_renamings", scn["adv"])
+        probe("adversarial_programs_exported")
     # C06 monitor on every package
     cv = netview.closed_violations(pkg, prim_ports())
     if cv:
@@ -177,10 +208,34 @@ def execute(scn):
                     res["findings"].append({"prop": prop, "clause": "spice-partition:" + diffs2[0].split(":")[0], "detail": diffs2[:4]})
                 elif ok2:
                     probe("spice_reading_agrees")
-    res["nontrivial"] = len(model["leaves"]) >= 1 and sched.choice_points >= 0
+    res["nontrivial"] = len(model["leaves"]) >= 1
+    if scn["mode"] == "c05":
+        res["nontrivial"] = res["nontrivial"] and scn.get("adv", 0) > 0
+    if scn["mode"] == "c04":
+        res["nontrivial"] = res["nontrivial"] and any(op[0] in ("repl", "disc") for op in ops)
     res["sig"] = hash64(shape_sig(ops), sched.trace_digest, scn["sched"][0])
     res["leaves"] = len(model["leaves"])
     return res
+
+
+def _live_invariant(it, stepd, op):
+    """After a connection operation: the instance's `conns` has exactly the model's keys,
+    and plain signal / bundle connections are the very objects the model names."""
+    mid, iname = op[1], op[2]
+    env = it.mods[mid]
+    if env.style == "gen" and not env.ended:
+        return None  # ops are buffered until the generator body runs
+    inst = env.objs.get(iname)
+    if inst is None:
+        return None
+    want = stepd.mods[mid].conns[iname]
+    have = inst.conns
+    if set(have.keys()) != set(want.keys()):
+        return f"after {op[:4]}: conns keys {sorted(have.keys())} != model {sorted(want.keys())}"
+    for port, x in want.items():
+        if x[0] in ("s", "b") and have[port] is not env.objs.get(x[1]):
+            return f"after {op[:4]}: conns[{port}] is not the object {x[1]}"
+    return None
 
 
 def _feature_probes(ops, probe):
@@ -197,12 +252,16 @@ def _feature_probes(ops, probe):
                 walk(v)
 
     for op in ops:
+        if op[0] == "repl":
+            probe("replace_ops")
         if op[0] in ("conn", "repl"):
             walk(op[4])
             if op[4][0] in ("sl", "sr") and op[4][1][0] in ("sl", "sr", "cat"):
                 probe("nested_slice")
             if op[4][0] == "cat":
                 probe("concat_conn")
+        elif op[0] == "disc":
+            probe("disconnect_ops")
         elif op[0] == "arr":
             probe("arrays")
         elif op[0] == "pair":
@@ -215,6 +274,9 @@ def _feature_probes(ops, probe):
 def _finish_c02(scn, res, it, top, bad, build_exc, probe, sched):
     cls = bad[0]
     probe("c02_class:" + cls)
+    probe("c02_planted:" + scn["planted"][0] + "@" + scn["planted"][1])
+    if hist_prefix_probe(scn["ops"]):
+        probe("c02_with_history_prefix")
     res["nontrivial"] = True
     res["sig"] = hash64(shape_sig(scn["ops"]), cls, scn.get("site", ""))
     if build_exc is not None:
@@ -233,6 +295,10 @@ def _finish_c02(scn, res, it, top, bad, build_exc, probe, sched):
     else:
         probe("c02_rejected")
     return res
+
+
+def hist_prefix_probe(ops):
+    return any(op[0] in interp.EXPORT_OPS for op in ops)
 
 
 def same_failure(f1, f2):
